@@ -203,9 +203,26 @@ func Diff(want, got hx.Elem, top bool) (clause, detail string) {
 // path: a marshaled value whose outermost element is named iq, message or
 // presence in a name space that is not a content name space.
 func ForeignStanzaLocal(c *Call) bool {
-	if c == nil || c.Form != "struct" || c.Expect == nil || c.Kind != "encode" {
+	marshaled := c != nil && (c.Form == "struct" || c.Form == "innerxml" || strings.HasPrefix(c.Form, "real:"))
+	if !marshaled || c.Expect == nil || c.Kind != "encode" {
 		return false
 	}
 	n := c.Expect.Name
 	return n.Space != "" && n.Space != NSClient && n.Space != NSServer && IsStanzaName(MName{Local: n.Local})
+}
+
+// PrefixedElementName reports the trigger class of a known limitation of the
+// raw-token path: the marshaled text (an ",innerxml" field) contains an element
+// whose NAME carries a prefix; the prefix is handed on as if it were the name
+// space.
+func PrefixedElementName(c *Call) bool {
+	if c == nil || c.Form != "innerxml" {
+		return false
+	}
+	for _, t := range c.Toks {
+		if t.Kind == "start" && t.Name.Space != "" {
+			return true
+		}
+	}
+	return false
 }
